@@ -25,20 +25,25 @@ CHECKS = {
 REQ_NOTE = ("Observable-level specification: internal goroutine interleavings are covered only through what they make visible at "
             "the sockets and hooks; bounded to <=4 hosts, <=2 connections per host, outcome alphabet of 16 classes, attempt histories "
             "of one request exhaustively (two requests in thorough tier). Trusts the fake backend (reference codecs) and the harness tracer ordering.")
-REQ_TECH = ("TLA+ spec RequestObs.tla model-checked with TLC (RequestObsMC); TLC-generated outcome scripts replayed against the real proxy; "
-            "recorded traces validated by TLC against TraceRequestObs.tla (trace validation, code->spec)")
+REQ_TECH = ("TLA+ spec RequestObs.tla model-checked with TLC (RequestObsMC); design-level model Request.tla (goroutines, locks) checked by TLC and "
+            "shown to refine RequestObs (RequestRefine); TLC-generated outcome scripts replayed against the real proxy; recorded traces validated "
+            "by TLC against TraceRequestObs.tla (trace validation, code->spec); hazard schedules of the design model replayed with gated hooks")
 for _pid, _txt in {
     "C01": "exactly one reply per request: AtMostOneReply / AllAnsweredAtRest on the spec; every recorded trace is checked for duplicate replies, replies "
            "after completion and - at quiescence - requests never answered although every attempt was answered or dropped",
     "C02": "replies carry the token and node of the attempt they answer, on the submitting client's stream; backend stream ids are never reused while in use; "
-           "many clients with equal stream ids, delayed and reordered responses",
+           "many clients with equal stream ids, delayed and reordered responses; a volume stage that uses every backend stream id of a connection and "
+           "answers a heartbeat after the proxy gave up on it; pipelined and retried writes under a consistency override; a second frame on a stream is "
+           "a violation too",
     "C04": "NonIdemNotReexecuted on the spec for all outcome/drop sequences; in traces every backend execution of a request that is not positively idempotent "
-           "must follow only outcomes that guarantee the previous attempt was not applied",
+           "must follow only outcomes that guarantee the previous attempt was not applied; statements in many spellings (function names in any case, "
+           "qualified, inside collections / tuples / nested calls), EXECUTE and BATCH with prepared children in every position",
     "C05": "the retry decision table (Decide) and the traversal rules are checked by TLC (EachHostOnce, AttemptsBounded, SucceedsIfSomeHostOk, NoHostsIffAllTried, "
            "ReturnsFirstFinal, termination under fairness); every terminal attempt history is replayed and the real attempt sequence/reply must be the prescribed one",
     "C08": "the prepare path of RequestObs (UNPREPARED -> re-prepare on the same connection -> re-execute on the same host; failed re-prepare -> next "
            "host; NeverUnpreparedWhileCached) checked by TLC; scenario families against the real proxy: hosts that never saw the PREPARE, scripted "
-           "UNPREPARED with re-prepare ok/error/connection loss, node restarts, a node joining after start-up, lz4 and snappy sessions",
+           "UNPREPARED with re-prepare ok/error/connection loss, node restarts, a node joining after start-up, lz4 and snappy sessions, batches with "
+           "several prepared children (one re-prepare round per child, re-executed on the re-prepared host)",
 }.items():
     CHECKS[_pid] = dict(category="model_checking", technique=REQ_TECH, text=_txt, note=REQ_NOTE, design="§6 " + _pid)
 
